@@ -37,8 +37,9 @@ Print Assumptions run_waits_for_pipes.
 
 (* Concurrent Start() calls on one object: for ANY number of callers and ANY interleaving of their steps (the unlocked IsOn
    test, the wait for the mutex, the IsOn test repeated under it, the spawn), at most one instance of the command is ever
-   spawned — so none can be left untracked.  Needs of the generated Start(): the mutex is held from before cmd.Start to the
-   deferred Unlock, and IsOn is tested again under it. *)
+   spawned — so none can be left untracked.  Needs of the generated source: in Start() the mutex is held from before
+   cmd.Start to the deferred Unlock and IsOn is tested again under it; monitoringOn is set by the launcher of the monitor,
+   before its goroutine exists (mon_on_sync). *)
 Theorem at_most_one_instance : forall sched, a_count (a_run G a_init sched) <= 1.
 Proof. apply at_most_one_instance_l. vm_compute. reflexivity. Qed.
 Print Assumptions at_most_one_instance.
